@@ -36,7 +36,7 @@ ASSUMPTIONS = ["exit-code class asserted only where docs/source/cli.rst is unamb
                "otherwise merely non-zero"]
 REQUIRED_PROBES = ["case.valid_run", "case.flag_no_exec", "case.invalid_config", "case.missing_key_never_produced",
                    "case.missing_key_produced_later", "case.runspace_supplied", "case.runspace_malformed", "case.runspace_over_cap",
-                   "case.missing_file", "case.usage_error", "case.failing_run", "dry_run_requested_in_yaml"]
+                   "case.missing_file", "case.usage_error", "case.failing_run", "dry_run_requested_in_yaml", "source_file_changed_between_launches"]
 CONFIG = {
     "quick": {"runs": 2500, "budget_s": 240, "timeout_s": 120},
     "thorough": {"runs": 100000, "budget_s": 1600, "timeout_s": 120},
@@ -122,7 +122,8 @@ def generate(rng: random.Random, tier: str, seed: int) -> dict:
                                    "by_position_empty_source", "by_position_empty_context",
                                    "rename_onto_later_column", "rename_onto_earlier_column"])
         elif kind == "runspace_over_cap":
-            c["how"] = rng.choice(["block_max_runs", "cli_max_runs", "block_max_runs_0", "cli_max_runs_0", "cli_max_runs_product_minus_1"])
+            c["how"] = rng.choice(["block_max_runs", "cli_max_runs", "block_max_runs_0", "cli_max_runs_0", "cli_max_runs_product_minus_1",
+                                   "source_grown_since_last_launch", "source_lost_a_column_since_last_launch"])
             c["via_rs_file"] = rng.random() < 0.3       # the run space itself comes from --run-space-file
         elif kind == "missing_file":
             c["how"] = rng.choice(["pipeline", "run_space_source", "run_space_file"])
@@ -302,6 +303,25 @@ def run_case(sc: dict, c: dict, w, stats: dict, idx: int) -> list[dict]:
                                                              {"mode": "by_position", "context": {"rs_b": [1.0]}}]}
         expect.update(exec=False, code=3)
         label = f"runspace_malformed:{how}"
+    elif kind == "runspace_over_cap" and c["how"] in ("source_grown_since_last_launch", "source_lost_a_column_since_last_launch"):
+        # a history: the same source path was launched successfully a moment ago in this process; then the file changed
+        src = f"{name}_rows.csv"
+        with open(src, "w") as fh:
+            fh.write("rs_a,rs_b\n1.0,10.0\n2.0,20.0\n")
+        rs_pre = {"max_runs": 3, "blocks": [{"mode": "by_position", "source": {"format": "csv", "path": src, "select": ["rs_a", "rs_b"]}}]}
+        harness.write_cli_config({"nodes": nodes}, f"{name}_pre.yaml", trace=None, run_space=rs_pre)
+        w.set_faults([])
+        pre = harness.run_cli(["run", f"{name}_pre.yaml", "-q"] + _ctx_args(ctx, skip=skip_ctx))
+        stats["probe.source_file_changed_between_launches"] = stats.get("probe.source_file_changed_between_launches", 0) + 1
+        if c["how"] == "source_grown_since_last_launch":
+            extra_files[src] = "rs_a,rs_b\n" + "".join(f"{i}.0,{i}0.0\n" for i in range(1, 6))       # 5 rows, cap 3
+        else:
+            extra_files[src] = "rs_a\n1.0\n2.0\n"                                                    # column rs_b is gone
+        run_space = rs_pre
+        label = f"runspace_over_cap:{c['how']}" if c["how"].startswith("source_grown") else f"runspace_malformed:{c['how']}"
+        expect.update(exec=False, code=3)
+        if pre["code"] != 0:
+            return []        # the valid launch did not run as planned (C01/C02 territory): no judgement on the second one
     elif kind == "runspace_over_cap":
         run_space = {"blocks": [{"mode": "combinatorial", "context": {"rs_a": [1.0, 2.0], "rs_b": [1.0, 2.0]}}]}
         if c["how"] == "block_max_runs":
